@@ -389,12 +389,12 @@ theorem rubik_reward_discount_valid (cfg : Cfg) (s : State) (a : Int × Int × I
    (reset_reward_discount_valid cfg flats).1, (reset_reward_discount_valid cfg flats).2⟩
 
 /-- `action_spec.generate_value()` = (0, 0, 0): for every constructible size (`n ≥ 2`) the action spec is well-formed, the
-generated value is a member of it, it is the move ⟨UP, outer layer, clockwise⟩ of the action space, and `step` answers it in
+generated value is a member of it (`hbig`: the number of depths fits the int32 dtype of the spec), it is the move ⟨UP, outer layer, clockwise⟩ of the action space, and `step` answers it in
 every state with a protocol-conform timestep; membership in `action_spec` is exactly `legal` -/
-theorem rubik_accepts_generate_value (cfg : Cfg) (hn : 2 ≤ cfg.n) (s : State) :
+theorem rubik_accepts_generate_value (cfg : Cfg) (hn : 2 ≤ cfg.n) (hbig : cfg.n / 2 ≤ 2147483648) (s : State) :
     (actionSpec cfg).WF = true ∧ (actionSpec cfg).valid (actionSpec cfg).generate = true ∧
     (actionSpec cfg).generate = actionArr (Move.act ⟨0, 0, 0⟩) ∧ legal cfg.n ⟨0, 0, 0⟩ ∧
-    StepOK none false (step cfg s (Move.act ⟨0, 0, 0⟩)).2 = true := accepts_generate_value cfg hn s
+    StepOK none false (step cfg s (Move.act ⟨0, 0, 0⟩)).2 = true := accepts_generate_value cfg hn hbig s
 
 theorem rubik_action_spec_iff_legal (cfg : Cfg) (m : Move) :
     (actionSpec cfg).valid (actionArr m.act) = true ↔ legal cfg.n m := actionSpec_valid_iff cfg m
